@@ -86,7 +86,7 @@ TrackCountSigs(F) ==
 
 FileSigs(F) ==
     LET tc == TrackCountSigs(F) IN
-    IF tc # {} THEN tc
+    IF tc # {} THEN tc \cup (IF cfg.facets.raw THEN RawSigsFile(F, cfg, v, a) ELSE {})     \* the header tables do not depend on the projection
     ELSE LET TV == F.tracks[1]
              hasA == cfg.ac # "none"
          IN  C01Track(v, TV, "video")
